@@ -61,6 +61,9 @@ func c09Try(c *core.Ctx, m *stun.Message, what string, s stun.Setter, wantOK boo
 
 		return
 	}
+	if c.WantSample() && err != nil {
+		c.Sample(map[string]interface{}{"setter": what, "result": fmt.Sprint(err), "message_before_bytes": len(before.Raw)})
+	}
 	if err != nil {
 		c.Count("rejections", 1)
 		if cl := errClass(err); cl != wantClass {
